@@ -95,6 +95,15 @@ func projects(tier string) []project {
 		ctl := scen.Controller{Name: "C" + id, Pkg: id, Prefix: scen.S("/" + id), Tag: scen.S("T" + id), Methods: []scen.Method{m}}
 		return scen.Case{ID: id, Unit: scen.Unit{Controllers: []scen.Controller{ctl}, Decls: map[string]string{id: decl}}, Features: map[string]string{"family": "enum-with-repeated-values"}}
 	}()
+	// two controllers with the same struct name in different packages (a cache keyed by the simple name confuses them)
+	twins := func() scen.Case {
+		id := "q0002"
+		mk := func(pkg string) scen.Controller {
+			m := scen.Method{Name: "Get" + pkg + id, Verb: "GET", Route: scen.S("/" + pkg + "/{id}"), Params: []scen.Param{{Name: "id", Type: "string", In: "Path"}}, Ret: "string"}
+			return scen.Controller{Name: "Twin" + id, Pkg: id + "/" + pkg, Prefix: scen.S("/" + id + "/" + pkg), Tag: scen.S("T" + pkg + id), Methods: []scen.Method{m}}
+		}
+		return scen.Case{ID: id, Unit: scen.Unit{Controllers: []scen.Controller{mk("za"), mk("zb")}}, Features: map[string]string{"family": "controller-twins"}}
+	}()
 	ps := []project{
 		{Name: "signatures: every return shape (incl. map), map/struct bodies, 3-parameter orders", Cases: append(append(
 			pick(sig.Cases, func(c scen.Case) bool {
@@ -105,7 +114,7 @@ func projects(tier string) []project {
 			}, 8)...),
 			pick(sig.Cases, fa("sig-3param"), 10)...)},
 		{Name: "types: graphs without mutual recursion, leaves, cross-package, an enum with repeated values", Cases: append(append(pick(typ.Cases, func(c scen.Case) bool { return c.Features["family"] == "type-graph" && c.Features["mutual"] == "false" }, 24), pick(typ.Cases, fa("type-leaf"), 14)...), append(pick(typ.Cases, fa("type-cross-package"), 1), dupEnum)...)},
-		{Name: "layout and security: prefixes, verbs, hidden, security shapes (with route-conflict warnings), controllers whose methods live in other files", Cases: append(append(pick(lay, func(c scen.Case) bool { return c.Features["prefix"] == "/§/a" }, 20), pick(sec.Cases, func(scen.Case) bool { return true }, 12)...), pick(layAll, otherFile, 6)...)},
+		{Name: "layout and security: prefixes, verbs, hidden, security shapes (with route-conflict warnings), controllers whose methods live in other files, two same-named controllers in different packages", Cases: append(append(pick(lay, func(c scen.Case) bool { return c.Features["prefix"] == "/§/a" }, 20), pick(sec.Cases, func(scen.Case) bool { return true }, 12)...), append(pick(layAll, otherFile, 6), twins)...)},
 	}
 	ps = append(ps, project{Name: "partially globbed packages: every package also holds a controller file outside controllerGlobs",
 		Cases: append(pick(lay, func(c scen.Case) bool { return c.Features["prefix"] == "/§" && c.Features["hidden"] == "false" }, 8), pick(sig.Cases, fa("sig-return"), 6)...), Patch: partialGlobs})
